@@ -22,6 +22,10 @@ Live(e) == ~done /\ l <= Len(T.ev) /\ Ev.e = e
 \* update: it must cover the narrowest gap cell
 TrGapLimit == /\ Live("GapLimit") /\ UNCHANGED avars
               /\ Note(IF Ev.code <= Ev.true + 1 THEN {} ELSE {"GapRequirementCoversEveryGapCell"})
+\* ... and the requirement of an un-rodded region against the limit read off
+\* that region's own coolant update
+TrRegionLimit == /\ Live("RegionLimit") /\ UNCHANGED avars
+                 /\ Note(IF Ev.code <= Ev.true + 1 THEN {} ELSE {"RegionRequirementCoversEveryNode"})
 TrSelect == /\ Live("Select") /\ status = "select"
             /\ LET s == ToL(Ev.step) IN
                /\ step' = s
@@ -49,6 +53,6 @@ Report == /\ ~done /\ l > Len(T.ev)
           /\ PrintT(<<"VERDICT", tid, IF verdict = {} THEN "accept" ELSE "reject",
                       IF firstbad # 0 THEN firstbad ELSE l - 1, verdict>>)
           /\ done' = TRUE /\ UNCHANGED <<avars, tid, l, verdict, firstbad>>
-Next == TrGapLimit \/ TrSelect \/ TrPlane \/ TrEnd \/ Report
+Next == TrGapLimit \/ TrRegionLimit \/ TrSelect \/ TrPlane \/ TrEnd \/ Report
 Spec == Init /\ [][Next]_vars
 =============================================================================
